@@ -1,5 +1,9 @@
 #!/usr/bin/env python3
-"""Re-runs every stored seeded change against the current checks and updates seeded/*/meta.json and seeded/SUMMARY.md."""
+"""seeded_all.py [ids | property ids | rN ...]
+Re-runs the stored seeded changes against the current checks: each is applied to /repo (git apply), the
+property's quick check is run from /verif, and the change is undone (git checkout) straight afterwards;
+updates seeded/*/meta.json and seeded/SUMMARY.md.  Newest rounds first; SEEDED_RUN_TAG=<tag> makes the run
+resumable (changes whose meta.json already carries the tag are skipped)."""
 import json, os, subprocess, sys, glob, time
 V = "/verif"
 EXTRA = {"C09-B": ["C05"], "C09-r2C": ["C05"], "C10-r2C": ["C09"], "C03-r2C": ["C04"], "C19-r2C": ["C05"], "C06-r3A": ["C16"], "C18-r3A": ["C17"]}
@@ -8,12 +12,24 @@ import tempfile, shutil, atexit
 SCRATCH = tempfile.mkdtemp(prefix="vsym-seeded-")
 atexit.register(lambda: shutil.rmtree(SCRATCH, ignore_errors=True))
 rows = []
-for d in sorted(glob.glob(V + "/seeded/*/")):
+TAG = os.environ.get("SEEDED_RUN_TAG", "")
+
+
+def order(d):
+    sid = os.path.basename(d.rstrip("/"))
+    suffix = sid.split("-", 1)[1]
+    rnd = int(suffix[1]) if suffix.startswith("r") else 1
+    return (-rnd, sid)
+
+
+for d in sorted(glob.glob(V + "/seeded/*/"), key=order):
     sid = os.path.basename(d.rstrip("/"))
     if only and sid not in only and sid.split("-")[0] not in only and not any(o.startswith("r") and ("-"+o) in sid for o in only):
         continue
     meta = json.load(open(d + "meta.json"))
     pid = meta["property"]
+    if TAG and meta.get("authoritative_run") == TAG:
+        continue
     if subprocess.run("git -C /repo status --porcelain", shell=True, capture_output=True, text=True).stdout.strip():
         print("/repo not clean"); sys.exit(3)
     subprocess.run("git -C /repo apply %spatch.diff" % d, shell=True, check=True)
@@ -35,6 +51,8 @@ for d in sorted(glob.glob(V + "/seeded/*/")):
     finally:
         subprocess.run("git -C /repo checkout -- .", shell=True)
     meta["check_result"] = res
+    meta["authoritative_run"] = TAG or time.strftime("%Y-%m-%dT%H:%M")
+    meta["checked_against"] = "/repo (patch applied with git apply, undone with git checkout)"
     meta["detected"] = any(v["exit"] == 1 for v in res.values())
     meta["detected_by"] = [p for p, v in res.items() if v["exit"] == 1]
     json.dump(meta, open(d + "meta.json", "w"), indent=1)
@@ -48,9 +66,9 @@ for d in sorted(glob.glob(V + "/seeded/*/")):
     res = meta.get("check_result") or {}
     labels = sorted(set(l.split(" in ")[0].replace("  obligation ", "") for v in res.values() for l in v.get("lines", []) if l.startswith("  obligation")))
     repl = sorted(set(l.strip()[8:60] for v in res.values() for l in v.get("lines", []) if l.startswith("  replay")))
-    rows.append((os.path.basename(d.rstrip("/")), meta["property"], meta.get("detected"), ",".join(meta.get("detected_by") or []), "; ".join(labels)[:120], "; ".join(repl)[:80], (meta.get("what_it_breaks") or "")[:110].replace("|", "/").replace("\n", " ")))
+    rows.append((os.path.basename(d.rstrip("/")), meta["property"], meta.get("detected"), ",".join(meta.get("detected_by") or []), "; ".join(labels)[:120], "; ".join(repl)[:80], (meta.get("what_it_breaks") or "")[:110].replace("|", "/").replace("\n", " "), meta.get("authoritative_run", "")))
 if True:
     with open(V + "/seeded/SUMMARY.md", "w") as f:
-        f.write("| id | property | detected | by check | failing obligations | replay | what it breaks |\n|---|---|---|---|---|---|---|\n")
+        f.write("| id | property | detected | by check | failing obligations | replay | what it breaks | last run against /repo |\n|---|---|---|---|---|---|---|---|\n")
         for r in rows:
-            f.write("| %s | %s | %s | %s | %s | %s | %s |\n" % r)
+            f.write("| %s | %s | %s | %s | %s | %s | %s | %s |\n" % r)
